@@ -24,6 +24,9 @@ pub enum Action {
     TruncateOut(String),
     /// no change at all (pure re-run)
     Nop,
+    /// the inner action, followed by a FORCED run (--force on the CLI, force: true in the file on
+    /// the build path) instead of a plain one
+    Forced(Box<Action>),
 }
 
 impl Action {
@@ -34,6 +37,7 @@ impl Action {
             Action::DeleteOut(f) => format!("delete:{}", f),
             Action::TruncateOut(f) => format!("truncate:{}", f),
             Action::Nop => "nop".into(),
+            Action::Forced(inner) => format!("forced:{}", inner.name()),
         }
     }
 }
@@ -171,7 +175,12 @@ pub fn step(
     refs: &Mutex<HashMap<String, Option<BTreeMap<String, String>>>>,
 ) -> Option<StepOutcome> {
     let mut next = st.clone();
-    match action {
+    let (action_applied, forced) = match action {
+        Action::Forced(inner) => (&**inner, true),
+        other => (other, false),
+    };
+    match action_applied {
+        Action::Forced(_) => return None,
         Action::Edit(name) => {
             if let Some(pos) = next.applied.iter().position(|n| n == name) {
                 next.applied.remove(pos);
@@ -196,7 +205,12 @@ pub fn step(
     next.history.push(action.clone());
     let sb = run::Sandbox::new();
     materialize(&sb.root, &project, &next);
-    let r = sbx::run_generate(&sb.root, seam, &RunOpts::default());
+    if forced && seam == Seam::Build {
+        let mut c = next.cfg.clone();
+        c.force = Some(true);
+        std::fs::write(sb.root.join("typegen.json"), c.to_json()).unwrap();
+    }
+    let r = sbx::run_generate(&sb.root, seam, &RunOpts { force_flag: forced && seam == Seam::Cli, ..Default::default() });
     next.out = read_raw_out(&sbx::out_dir(&sb.root, &next.cfg));
     let exit_ok = r.success();
     let took_cache_hit = r.stdout.contains("up to date");
@@ -240,7 +254,7 @@ pub fn step(
 }
 
 /// the actions of the deeper plan (names as printed by Action::name)
-const CORE_ACTIONS: [&str; 12] = ["edit:skip_add", "edit:variant_add", "edit:field_add", "edit:event_add", "edit:move_type", "edit:rename_command", "edit:blank_line_before_command", "edit:add_unreachable_type", "cfg:visualize", "cfg:mode", "delete:types.ts", "nop"];
+const CORE_ACTIONS: [&str; 15] = ["edit:skip_add", "edit:variant_add", "edit:field_add", "edit:event_add", "edit:move_type", "edit:rename_command", "edit:blank_line_before_command", "edit:add_unreachable_type", "cfg:visualize", "cfg:mode", "delete:types.ts", "nop", "forced:cfg:mode", "forced:edit:field_add", "forced:nop"];
 
 fn actions_for(alphabet: &[Edit], st: &HState, with_cfg: bool) -> Vec<Action> {
     let mut v: Vec<Action> = alphabet.iter().map(|e| Action::Edit(e.name.clone())).collect();
@@ -255,6 +269,11 @@ fn actions_for(alphabet: &[Edit], st: &HState, with_cfg: bool) -> Vec<Action> {
         }
     }
     v.push(Action::Nop);
+    // forced runs after a mode switch, after an edit, after nothing
+    v.push(Action::Forced(Box::new(Action::Cfg("mode".into()))));
+    v.push(Action::Forced(Box::new(Action::Edit("field_add".into()))));
+    v.push(Action::Forced(Box::new(Action::Cfg("visualize".into()))));
+    v.push(Action::Forced(Box::new(Action::Nop)));
     v
 }
 
@@ -423,7 +442,7 @@ pub fn run(tier: Tier) -> CheckResult {
                             rejected += 1;
                             continue;
                         }
-                        if matches!(a, Action::Edit(_) | Action::Cfg(_) | Action::DeleteOut(_) | Action::TruncateOut(_)) {
+                        if matches!(a, Action::Edit(_) | Action::Cfg(_) | Action::DeleteOut(_) | Action::TruncateOut(_) | Action::Forced(_)) {
                             nontrivial_keys.insert(format!("{}|{}|{}|{}", base_name, zod, seam.name(), st.history.iter().map(|x| x.name()).collect::<Vec<_>>().join(">")));
                         }
                         if !o.discrepancies.is_empty() {
@@ -471,7 +490,7 @@ pub fn run(tier: Tier) -> CheckResult {
     res.coverage.set("completed", json!(completed));
     res.coverage.set("samples", json!(samples));
     res.coverage.set("exhaustive", exhaustive);
-    res.coverage.set("rule", "explicit-state BFS: state = (sources variant, configuration, output directory minus timestamp line, cache file); transition = one action (toggle a source edit / configuration setting, delete or truncate a generated file, or nothing) followed by one non-forced run of the real binary or build-script path under the identity schedule; invariant in every state reached by a successful run: every file of a forced reference generation exists with equal content; states violating the invariant are reported and not expanded; plans: the full action alphabet to the tier's depth through one seam, the same with alternating seams (b0), and one level deeper over a twelve-action core alphabet (b0); a history is non-trivial when it contains at least one edit/config/file action and its last run exited 0");
+    res.coverage.set("rule", "explicit-state BFS: state = (sources variant, configuration, output directory minus timestamp line, cache file); transition = one action (toggle a source edit / configuration setting, delete a generated file, or nothing) followed by one non-forced run - or, for four designated actions, a FORCED run - of the real binary or build-script path under the identity schedule; invariant in every state reached by a successful run: every file of a forced reference generation exists with equal content; states violating the invariant are reported and not expanded; plans: the full action alphabet to the tier's depth through one seam, the same with alternating seams (b0), and one level deeper over a twelve-action core alphabet (b0); a history is non-trivial when it contains at least one edit/config/file action and its last run exited 0");
     res.assumptions = vec![
         "all runs use the hooks-on binary under the identity schedule so that byte comparison is meaningful (order nondeterminism is C13's business)".into(),
         "edit alphabet: one representative per output-affecting edit class (projects.rs)".into(),
